@@ -201,7 +201,40 @@ def sub_history(case):
     req((k.year, k.month, k.idx) == (year, rem // 3 + 1, rem % 3 + 1), "history: final fields of %s" % k, "dekad fields")
 
 
-SUBS = {"history": sub_history, "day": sub_day, "dekad": sub_dekad, "instant": sub_instant, "offsets": sub_offsets, "accessor": sub_accessor}
+def sub_accessor_history(case):
+    """One time coordinate object asked for its dekad properties again and again; in between the caller works on the arrays it was
+    handed (in place, where the array lets it) or replaces the time labels in place. Every answer must equal the scalar class on the
+    labels the object carries at that moment."""
+    cur = [pd.Timestamp(v) for v in case["times"]]
+    da = xr.DataArray(np.arange(len(cur)), dims=("time",), coords={"time": pd.DatetimeIndex(cur)})
+    tt = da.time
+    handed = {}
+    for k, op in enumerate(case["ops"]):
+        if op[0] == "get":
+            name = op[1]
+            got = call(".dekad.%s" % name, lambda: getattr(tt.dekad, name))
+            ks = [Dekad(t.to_pydatetime()) for t in cur]
+            want = [str(q) for q in ks] if name == "label" else [getattr(q, name) if name != "linspace" else q.yidx - 1 for q in ks]
+            req(list(got.values.tolist()) == want, ".dekad.%s after the history %s = %s, scalar class on the current labels %s" % (
+                name, [o[0] + ":" + str(o[1]) for o in case["ops"][:k + 1]], got.values.tolist()[:8], want[:8]), "accessor answer depends on earlier calls")
+            handed[name] = got
+        elif op[0] == "modify":
+            r = handed.get(op[1])
+            if r is not None and r.dtype.kind in "iu":
+                try:
+                    r.values[...] = r.values - int(op[2])  # e.g. y -= 1 to make an index zero-based
+                except ValueError:
+                    pass  # read-only result: nothing the caller can do to it
+        elif op[0] == "shift_time":
+            cur = [t + pd.Timedelta(days=int(op[1])) for t in cur]
+            if op[2]:
+                da["time"] = pd.DatetimeIndex(cur)
+                tt = da.time
+            else:
+                tt["time"] = pd.DatetimeIndex(cur)
+
+
+SUBS = {"accessor_history": sub_accessor_history, "history": sub_history, "day": sub_day, "dekad": sub_dekad, "instant": sub_instant, "offsets": sub_offsets, "accessor": sub_accessor}
 
 
 def _worker(years):
@@ -287,6 +320,20 @@ def run(ctx):
     def f_a(case):
         rec.case("accessor", case, nontrivial=True, cls="n=%d" % min(len(case["times"]), 5))
         sub_accessor(case)
+
+    def f_ah(case):
+        kinds = [o[0] for o in case["ops"]]
+        rec.case("accessor_history", case, nontrivial=kinds.count("get") >= 2 and ("modify" in kinds or "shift_time" in kinds), cls=["ops=%d" % len(kinds)] + sorted(set(kinds)))
+        sub_accessor_history(case)
+
+    props_ = st.sampled_from(["idx", "yidx", "raw", "ndays", "label", "linspace"])
+    ah = st.builds(lambda y, doy, n, step, ops: {"times": [str(pd.Timestamp(year=y, month=1, day=1) + pd.Timedelta(days=doy + step * i)) for i in range(n)],
+                                                  "ops": [list(o) for o in ops] + [["get", "yidx"], ["get", "raw"]]},
+                   st.integers(1900, 2100), st.integers(0, 364), st.integers(1, 12), st.sampled_from([1, 5, 10, 11]),
+                   st.lists(st.one_of(st.tuples(st.just("get"), props_), st.tuples(st.just("get"), props_),
+                                      st.tuples(st.just("modify"), props_, st.sampled_from([1, -1, 36, 1000])),
+                                      st.tuples(st.just("shift_time"), st.sampled_from([1, 10, 11, 365, -20]), st.booleans())), min_size=2, max_size=10))
+    ctx.given("accessor_history", ah, ctx.n(300, 4000), fn=f_ah)
 
     lo, hi = pd.Timestamp("1678-01-01").value // 10 ** 9, pd.Timestamp("2261-12-31").value // 10 ** 9
     tstr = st.builds(lambda s, ns: str(pd.Timestamp(s * 10 ** 9 + ns)), st.integers(lo, hi), st.sampled_from([0, 1, 999999999]))
